@@ -925,8 +925,44 @@ def gen_C19(o, rng, tier):
 
 
 def gen_C20(o, rng, tier):
-    # serde: driven by a separate harness mode; the ops here only build the states
-    gen_C14(o, rng, "quick")
+    """serde round trips: every layout (with and without a removal in its history) of every source
+    capacity into every target capacity of the menu (sufficient, exactly sufficient, insufficient),
+    maps and sets; then the decoded container is compared and used."""
+    n = 3 if tier == "quick" else 4
+    menu = [0, 1, 2, 3, 4, 6]
+    for nn in range(0, n + 1):
+        u = list(range(nn + 1))
+        for lay in layouts(nn, u):
+            for variant in ([False, True] if lay else [False]):
+                for dcap in menu:
+                    if tier == "quick" and dcap > len(lay) + 1 and dcap != 6:
+                        continue
+                    o.case(m0=nn, m1=dcap, s0=nn, s1=dcap)
+                    build_map(o, "m0", lay, via_removal=variant)
+                    o.op("m0 serde m1", test=True)
+                    o.op("m0 eq m1")
+                    o.op("m1 eq m0")
+                    o.op("m1 len")
+                    for c in u:
+                        o.op(f"m1 get q:{c}#0")
+                    build_set(o, "s0", lay)
+                    o.op("s0 serde s1", test=True)
+                    o.op("s0 eq s1")
+                    o.op("s1 eq s0")
+                    o.op("s1 iter nnnnn")
+                    o.end()
+    for _ in range(40 if tier == "quick" else 400):
+        nn = rng.choice([2, 3, 4, 6])
+        dn = rng.choice(menu)
+        o.case(m0=nn, m1=dn, s0=nn, s1=dn, tag="r")
+        random_map_seq(o, rng, nn, rng.randint(5, 25), list(range(nn + 2)), with_forget=False, regs=("m0",))
+        o.op("m0 serde m1", test=True)
+        o.op("m0 eq m1")
+        o.op("m1 iter iter 0 nnnnnnn")
+        random_set_seq(o, rng, min(nn, dn) if dn else 0, rng.randint(3, 12), list(range(nn + 2)))
+        o.op("s0 serde s1", test=True)
+        o.op("s1 eq s0")
+        o.end()
 
 
 GENS = {
